@@ -277,6 +277,103 @@ def o4(h, st):
     h.done()
 
 
+# ---------------------------------------------------------------------------------------------------------------------
+# P1  frobenius_norm_compression on an operator with ANY number of terms: inductive invariant of the discarding loop
+
+from tverif.engine import GhostDict, stub
+from tverif.interp import GhostIterable, GSeq
+
+
+class _DiscardLoop(GhostIterable):
+    managed = ("coef2_sum", "compressed_op")
+
+    def __init__(self, h, n, eps, word, c, S, D2, kept_any):
+        self.h, self.n, self.eps, self.word, self.c, self.S, self.D2, self.kept_any = h, n, eps, word, c, S, D2, kept_any
+        self.iterations = 0
+
+    def element(self):
+        self.iterations += 1
+        return (self.word, self.c)
+
+    def init(self, interp, env):
+        self.h.check_close("on loop entry: the running sum is 0", env.lookup("coef2_sum"), 0)
+        self.h.check("on loop entry: nothing kept yet", env.lookup("compressed_op") == {})
+
+    def havoc(self, interp, env):
+        self.iterations = 1          # (havoc runs only when the sequence is non-empty)
+        self.kept = GhostDict("compressed_op", self.h.ctx)
+        env.assign("compressed_op", self.kept)
+        env.assign("coef2_sum", self.S)
+
+    def step(self, interp, env, broke):
+        h, c, S, D2, eps, n = self.h, self.c, self.S, self.D2, self.eps, self.n
+        h.check("the loop does not stop early", not broke)
+        h.shape("the kept terms are collected in the same dictionary", env.lookup("compressed_op") is self.kept)
+        S2 = env.lookup("coef2_sum")
+        h.check_close("running sum += |coef|^2", S2, S + c * c)
+        thr2 = eps * eps          # compared with 2^n * (sum of squares)
+        if self.kept.written:
+            h.check("a kept term keeps its word and coefficient", list(self.kept.written) == [self.word] and self.kept.written[self.word] is c)
+            h.check("invariant: the discarded mass stays within the bound  2^n * D2 <= eps^2", (2 ** n) * D2 <= thr2)
+            h.check("invariant: once a term is kept the running sum exceeds the threshold  2^n * S' > eps^2", (2 ** n) * S2 > thr2)
+        else:
+            # discarded: the discarded mass grows by |coef|^2
+            h.check("invariant: the discarded mass stays within the bound  2^n * (D2 + |coef|^2) <= eps^2", (2 ** n) * (D2 + c * c) <= thr2)
+            h.check("invariant: a term is discarded only while nothing has been kept (the discarded terms form a prefix)", ~self.kept_any if not isinstance(self.kept_any, bool) else not self.kept_any)
+
+
+@contract("C14", "P1.frobenius_norm_compression.any_number_of_terms", targets=[(OP, "QubitOperator.frobenius_norm_compression")], level="P",
+          structures=lambda tier: [{"n": n} for n in range(1, 9)], max_paths=40)
+def p1(h, st):
+    """for an operator with ANY number of terms, every epsilon > 0 and register sizes odd and even: inductive invariant of the discarding loop - with S the running sum of |c|^2 over the
+    terms seen and D2 the sum over the discarded ones: 2^n D2 <= eps^2, D2 == S while nothing has been kept, 2^n S > eps^2 once something has been kept. One generic iteration on a
+    generic term from an arbitrary state satisfying the invariant re-establishes it, and it holds initially; hence at exit the Frobenius norm 2^(n/2) sqrt(D2) of the discarded part is
+    at most epsilon for operators of any size (the order produced by sorted() is not needed for this bound, only for discarding as much as possible); a kept term keeps its coefficient"""
+    if not h.symbolic:
+        h.check("native: covered by O1 / O1b", True)
+        h.done()
+        return
+    from tangelo.toolboxes.operators import QubitOperator
+    n = st["n"]
+    eps, c, S, D2 = h.real("eps"), h.real("c"), h.real("S"), h.real("D2")
+    kept_any = h.boolean("kept_any")
+    h.assume(eps > 0)
+    h.assume(c > 0.000001)           # away from openfermion's 1e-8 compression threshold; the sign does not matter (|c|^2)
+    # the invariant, assumed for the arbitrary state before the generic iteration
+    h.assume(S >= 0)
+    h.assume(D2 >= 0)
+    h.assume(D2 <= S)
+    h.assume((2 ** n) * D2 <= eps * eps)
+    h.assume(kept_any | (D2 == S))
+    h.assume((~kept_any) | ((2 ** n) * S > eps * eps))
+    word = ((0, "Z"), (1, "X"))
+    proto = _DiscardLoop(h, n, eps, word, c, S, D2, kept_any)
+
+    class _Terms:
+        def items(self_):
+            return GSeq.atom("self.terms.items()", (word, c), proto=proto)
+    qop = QubitOperator.__new__(QubitOperator)
+    qop.__dict__["terms"] = _Terms()
+    stub_calls = []
+    import openfermion as of
+    from tverif import interp as _i
+    key = id(of.SymbolicOperator.compress)
+    old = _i._MODELS.get(key)
+    _i._MODELS[key] = lambda interp, f, args, kw: stub_calls.append("compress")        # assumed: compress() drops only terms below 1e-8
+    try:
+        h.call(OP, "QubitOperator.frobenius_norm_compression", qop, eps, n)
+    finally:
+        if old is None:
+            _i._MODELS.pop(key, None)
+        else:
+            _i._MODELS[key] = old
+    if proto.iterations == 0:
+        h.check("operator without terms: nothing kept", isinstance(qop.__dict__["terms"], dict) and len(qop.__dict__["terms"]) == 0, detail=repr(qop.__dict__["terms"])[:100])
+    else:
+        h.check("the kept terms become the operator's terms", qop.__dict__["terms"] is proto.kept)
+    h.done()
+
+
 from tverif.engine import repeatable
 repeatable((TT, "trim_trivial_qubits"), (TT, "trim_trivial_circuit"), (TT, "trim_trivial_operator"))
 
